@@ -869,6 +869,90 @@ Definition printenv_tool_fixed (e : env) (c : tcall) : list str * str :=
   | None => ([], [])
   end.
 
+(* ---- the authority over TIME -------------------------------------------------------------------------------------
+   The configuration is re-read on every request while the process lives on.  rip-tools secret_env.rs keeps a
+   process-wide registry of `{ "env": NAME }` names: load_effective_config (ripd config.rs) adds the names of the
+   configuration it has just loaded on EVERY load - engine start (SessionEngine::new), every per-request resolution of
+   the thread path, every doctor call - and nothing ever removes a name.  A spawn (bash / shell tool, pipes / pty task)
+   calls secret_env_names() AT SPAWN TIME and removes the three fixed variables + the registry as it is then. *)
+Definition registry := list str.
+Definition reg_load (r : registry) (w : world) : registry := r ++ envref_names (c_providers (load_config w)).
+Definition stripped_names (r : registry) : list str := [E_API_KEY; E_OPENAI; E_OPENROUTER] ++ r.
+Definition spawn_env (r : registry) (e : env) : env :=
+  filter (fun kv => negb (existsb (str_eqb (fst kv)) (stripped_names r))) e.
+(* what one authority process does, in order: it loads the configuration (the files as they are at that moment), it
+   spawns a subprocess *)
+Inductive aevent := ALoad (w : world) | ASpawn.
+(* the environments of the subprocesses of a process with environment `e`, in spawn order *)
+Fixpoint spawn_envs (r : registry) (e : env) (evs : list aevent) : list env :=
+  match evs with
+  | [] => []
+  | ALoad w :: rest => spawn_envs (reg_load r w) e rest
+  | ASpawn :: rest => spawn_env r e :: spawn_envs r e rest
+  end.
+Definition reg_after (hist : list world) : registry := fold_left reg_load hist [].
+(* the environment of a subprocess spawned after the configurations `hist` were loaded (oldest first) *)
+Definition tool_env_at (hist : list world) (e : env) : env := spawn_env (reg_after hist) e.
+
+(* what the code must NOT do (seeded change C19-4, "spawn-path optimisation"): the merged list is built at the FIRST
+   spawn and reused - names registered by later loads are never removed from a subprocess environment *)
+Fixpoint spawn_envs_memo (r : registry) (memo : option (list str)) (e : env) (evs : list aevent) : list env :=
+  match evs with
+  | [] => []
+  | ALoad w :: rest => spawn_envs_memo (reg_load r w) memo e rest
+  | ASpawn :: rest =>
+      let names := match memo with Some m => m | None => stripped_names r end in
+      filter (fun kv => negb (existsb (str_eqb (fst kv)) names)) e :: spawn_envs_memo r (Some names) e rest
+  end.
+
+(* The operations of one authority process as far as secrets go.  A run on the thread path resolves (loads) the
+   configuration first; a run on the session path uses the start-up configuration and loads nothing.  The tools of a
+   run are functions of the call and of the environment rip hands them at that time. *)
+Inductive aop :=
+| OLoad (w : world)                                                   (* engine start, doctor call *)
+| ORun (thread : bool) (w : world) (prompt : str) (initial : list item).
+Fixpoint process_runs (fuel : nat) (v : body -> list str) (p : N -> str -> body -> presp)
+                      (t : env -> tcall -> list str * str) (r : registry) (ops : list aop)
+  : list (list frame * list frame) :=
+  match ops with
+  | [] => []
+  | OLoad w :: rest => process_runs fuel v p t (reg_load r w) rest
+  | ORun thread w prompt initial :: rest =>
+      let r' := if thread then reg_load r w else r in
+      persisted (run fuel (mkScript v p (t (spawn_env r' (w_env w)))) thread w prompt initial)
+      :: process_runs fuel v p t r' rest
+  end.
+(* two histories of one process that differ only in secret values: inline keys, header values, and the values of
+   variables that are credential variables (removed) whenever a subprocess is spawned *)
+Fixpoint ops_agree (r : registry) (o1 o2 : list aop) : Prop :=
+  match o1, o2 with
+  | [], [] => True
+  | OLoad w1 :: a, OLoad w2 :: b => low_world w1 = low_world w2 /\ ops_agree (reg_load r w1) a b
+  | ORun th1 w1 p1 i1 :: a, ORun th2 w2 p2 i2 :: b =>
+      th1 = th2 /\ p1 = p2 /\ i1 = i2 /\ low_world w1 = low_world w2
+      /\ spawn_env (if th1 then reg_load r w1 else r) (w_env w1) = spawn_env (if th1 then reg_load r w1 else r) (w_env w2)
+      /\ ops_agree (if th1 then reg_load r w1 else r) a b
+  | _, _ => False
+  end.
+
+(* T1 facts read from the source (tools/gen/secret_uses.py): the fixed variable list, no memoisation in
+   secret_env_names() (its body reads the registry on every call and holds no static / OnceLock / lazy / thread_local),
+   register_secret_env_names only ever extends the set, load_effective_config registers unconditionally on every call
+   and is called at engine start and by the per-request resolution, and every subprocess spawn site in rip-tools and
+   ripd removes secret_env_names() from the child environment before the call's own `env` is applied *)
+Record spawn_facts := mkSpawnFacts {
+  sf_fixed_names : list str;
+  sf_names_fresh : bool;
+  sf_registry_grows_only : bool;
+  sf_load_registers : bool;
+  sf_loaders_found : bool;
+  sf_spawn_sites : N;
+  sf_spawn_sites_stripping : N }.
+Definition spawn_facts_wf (f : spawn_facts) : bool :=
+  list_eqb str_eqb (sf_fixed_names f) [E_API_KEY; E_OPENAI; E_OPENROUTER]
+  && sf_names_fresh f && sf_registry_grows_only f && sf_load_registers f && sf_loaders_found f
+  && (1 <=? sf_spawn_sites f) && (sf_spawn_sites f =? sf_spawn_sites_stripping f).
+
 (* UNFIXED behaviour (before the fix; KNOWN_FINDINGS C19/B1): the subprocess inherited the whole environment.  Still the
    behaviour of a tool that fetches the secret ITSELF with the user's OS permissions (/proc/<authority pid>/environ, a
    configuration file with an inline key): such tools are functions of the whole world. *)
@@ -962,7 +1046,9 @@ Definition reason_text (r : N) : str :=
   | _ => lit "fuel"
   end.
 
-Record case := mkCase { cs_world : world; cs_cli : option cli_flags; cs_thread : bool; cs_outcome : N; cs_obs : list N }.
+(* cs_before: the configurations this authority process loaded EARLIER (multi-step scenarios: the files before the edit) *)
+Record case := mkCase { cs_world : world; cs_before : list world; cs_cli : option cli_flags; cs_thread : bool;
+                        cs_outcome : N; cs_obs : list N }.
 (* the world the authority lives in: the scenario's, or what `rip run --provider ..` makes of it *)
 Definition case_world (c : case) : world :=
   match cs_cli c with
@@ -1042,10 +1128,19 @@ Definition enc_report (w : world) : list N :=
   nlen (startup_warnings (w_env w)) :: flat_map enc_str (startup_warnings (w_env w))
   ++ nlen (source_errors w) :: flat_map enc_str (source_errors w) ++ enc_doctor (doctor w).
 
-(* outcome 99: only the diagnostic surface was exercised (GET /config/doctor, `rip config doctor`) *)
+(* which of the scenario's variables a subprocess sees (names only), in the order of the authority's environment *)
+Definition enc_visible (seen : env) (e : env) : list N :=
+  nlen e :: map (fun kv => match getenv seen (fst kv) with Some _ => 1 | None => 0 end) e.
+
+(* outcome 99: only the diagnostic surface was exercised (GET /config/doctor, `rip config doctor`);
+   outcome 98: multi-step - a subprocess was spawned, the files were edited, the edited configuration was loaded, a
+   subprocess printed its environment: the report after the edit + what the probe saw; 97: the same with NOTHING
+   loading the edited configuration before the probe was spawned (control) *)
 Definition model_obs (c : case) : list N :=
   let w := case_world c in
   if cs_outcome c =? 99 then enc_report w else
+  if cs_outcome c =? 98 then enc_report w ++ enc_visible (tool_env_at (cs_before c ++ [w]) (w_env w)) (w_env w) else
+  if cs_outcome c =? 97 then enc_report w ++ enc_visible (tool_env_at (cs_before c) (w_env w)) (w_env w) else
   let o := run 40 (outcome_script (cs_outcome c)) (cs_thread c) w (lit "prompt") [IUser (lit "prompt")] in
   let reqs := enc_req_frames (out_session o) in
   let curs := enc_cursors (out_thread o) in
